@@ -13,7 +13,8 @@ EXPLANATION = (
     "returns valid_until - t in both hooks; (W1) on the get path Record.ttl is written only by decrement_ttl (saturating_sub of "
     "elapsed) and negative_ttl only by saturating_sub(elapsed), with elapsed = now.saturating_duration_since(original_time) "
     "(never increases, floors at zero); (T1) the recursor and caching client insert only through ResponseCache::insert (who-"
-    "may-call on the moka handle).")
+    "may-call on the moka handle); (S2) the negative TTL is min(SOA record TTL, SOA MINIMUM) of one authority-section SOA; (S3) "
+    "every record the CNAME-chain rebuild of CachingClient::handle_noerror keeps carries min(chain TTL, own TTL).")
 NOT_DECIDED = "Numerical lifetimes and history interleavings; moka's own eviction timing."
 ASSUMPTIONS = ["FULL feature configuration", "Ord::clamp / saturating_sub semantics"]
 
